@@ -32,6 +32,7 @@ def workdir():
 
 
 def cleanup():
+    """remove the scratch directory (also registered with atexit: nothing is left under /tmp)"""
     global WORKDIR
     if WORKDIR and os.path.isdir(WORKDIR):
         import shutil
@@ -182,6 +183,10 @@ def solve_many(jobs, budget=10.0, workers=None, solvers=('z3', 'cvc5')):
         futs = [ex.submit(solve_text, txt, budget if cs else max(3.0, budget / 5.0), wm, tag, solvers, cs)
                 for (tag, txt, wm, cs) in jobs]
         return [f.result() for f in futs]
+
+
+import atexit as _atexit   # noqa: E402
+_atexit.register(cleanup)
 
 
 # ---------------------------------------------------------------- model parsing
